@@ -17,6 +17,7 @@ RULE = (
     "MultiCtl.value inside a project (1..4 targets per MultiCtl drawn per range kind so that compact / negative-minimum / no-offset / ordinary targets mix in one fan-out, the remaining MultiCtl controllers out_offset / response / sample_rate at drawn values, incl. a link whose mapping names no controller, a link that was made and removed again, and a link to a module lacking the mapped controller); (c) the same tuples x20 through "
     "convert_value directly with the arguments on_value_changed passes. distinct = tuple hash; non-trivial = window strictly inside (0,32768) or "
     "reversed, with gain != 256 or quantization < 32768, or a non-default curve"
+    " Also (added while the seeded-change rounds of DESIGN section 9 ran): Also: the MultiCtl's remaining controllers at drawn values, targets drawn per range kind, a second configuration on the same object swept downwards, a chained case (input driven by another MultiCtl, twin oracle), and a deterministic sweep of every distinct range shape of the specification with edge windows."
 )
 ASSUMPTIONS = [
     "ranged target = controller whose declared value type is a fixed Range (unit-dependent targets are skipped by the library and not claimed)",
